@@ -42,6 +42,14 @@ def gen_deep(rng):
         lines.append("t0 unreg @%d" % rng.choice([t for t in tags if t not in victims]))
     if rng.random() < 0.5:
         lines.append("t0 reg %d %d" % (sg, 100 + n))
+    if rng.random() < 0.4:
+        # every action of the signal is removed at once, new ones are registered, and a holder of an old id uses it
+        # again: that is a no-op, whatever ids the new actions were given
+        lines.append("t0 unregsig %d" % sg)
+        for k in range(rng.randint(1, 3)):
+            lines.append("t0 reg %d %d" % (sg, 200 + k))
+        for v in rng.sample(tags, rng.randint(1, 2)):
+            lines.append("t0 unreg @%d" % v)
     lines.append("t1 deliver %d" % sg)
     lines.append("t1 deliver %d" % sg)
     if rng.random() < 0.5:
@@ -217,7 +225,7 @@ class Spec:
             w = l.split()
             if w[0] == "setup":
                 if w[1] == "foreign":
-                    self.foreign[int(w[2])] = w[3].split("+")[0]
+                    self.foreign[int(w[2])] = w[3].split("~")[0].split("+")[0]
                 elif w[1] in ("reg", "regu"):
                     sg, tg = int(w[2]), int(w[3])
                     if w[1] == "reg" and sg in (9, 19, 4, 8, 11):
